@@ -129,6 +129,9 @@ type Script struct {
 // Extra builtins to register on every new VM (set by harness packages).
 var Builtins []func() data.FuncStmt
 
+// Extra classes to register on every new VM (set by harness packages).
+var Classes []func() data.ClassStmt
+
 // Compile parses src on a fresh bare VM (emit/mark registered).
 func Compile(src string) *Script {
 	p := parser.NewParser()
@@ -143,6 +146,9 @@ func Compile(src string) *Script {
 	vm.AddClass(exception.NewExceptionClass())
 	for _, b := range Builtins {
 		vm.AddFunc(b())
+	}
+	for _, c := range Classes {
+		vm.AddClass(c())
 	}
 	vm.SetThrowControl(func(acl data.Control) { Uncaught = append(Uncaught, acl) })
 	prog, acl := p.ParseString(src, "t.zy")
